@@ -929,6 +929,9 @@ func (s *Syncer) Run() error {
 		return err
 	}
 	defer done()
+	// the loops must also end when one of them fails, not only on Close
+	ctx, cancel := context.WithCancel(ctx)
+	defer cancel()
 
 	errChan := make(chan error)
 	for _, fn := range []func(context.Context) error{s.acceptLoop, s.peerLoop, s.syncLoop} {
@@ -945,6 +948,7 @@ func (s *Syncer) Run() error {
 	err = <-errChan
 
 	// when one goroutine exits, shutdown and wait for the others
+	cancel()
 	s.l.Close()
 	s.mu.Lock()
 	s.closing = true
